@@ -20,6 +20,8 @@ type Behaviour struct {
 	// Gate is an event name ("<kind>:<key>") the invocation waits for before finishing
 	// (after the delay). It also ends on cancellation/close.
 	Gate string `json:"gate,omitempty"`
+	// GateTimeoutMs bounds the wait for the gate (0 = unbounded).
+	GateTimeoutMs int `json:"gate_timeout_ms,omitempty"`
 	// Outcome: success | error | alt | crash | bad_output | undeclared | never
 	Outcome string `json:"outcome,omitempty"`
 	// OnCancel: "alt" (answer alt after CancelDelayMs) | "ignore"
@@ -231,10 +233,16 @@ func (w *World) deployBehaviour(src string) DeployBehaviour {
 func (w *World) enter(group string) {
 	w.mu.Lock()
 	w.conc[group]++
-	if w.conc[group] > w.concHigh[group] {
-		w.concHigh[group] = w.conc[group]
+	n := w.conc[group]
+	newHigh := n > w.concHigh[group]
+	if newHigh {
+		w.concHigh[group] = n
 	}
 	w.mu.Unlock()
+	if newHigh {
+		// event "conc:<group>#<n>": n executions of the group run at the same time
+		w.Log("conc", fmt.Sprintf("%s#%d", group, n), nil)
+	}
 }
 
 func (w *World) leave(group string) {
